@@ -781,6 +781,15 @@ func (vfs *MemFS) removeAll(parent *dirNode) error {
 			}
 		}
 
+		child.Lock()
+		uid := ownerOf(child)
+		child.Unlock()
+
+		if parent.restrictedDeletion(uid, vfs.User()) {
+			// sticky bit : the entry belongs to another user.
+			return vfs.err.OpNotPermitted
+		}
+
 		child.delete()
 		delete(parent.children, name)
 	}
